@@ -18,9 +18,19 @@ package table
 //@ func (*Path).GetSource
 //@   pure
 //@   spec-only
+// AS_PATH length = sum over the segments of their ASLen() (defined by the two axioms below)
+//@ ghost sumASLen(s []bgp.AsPathParamInterface, k int) int
+//@ axiom sumASLen0: forall s []bgp.AsPathParamInterface :: sumASLen(s, 0) == 0
+//@ axiom sumASLenStep: forall s []bgp.AsPathParamInterface, k int :: 0 <= k && k < len(s) ==> sumASLen(s, k+1) == sumASLen(s, k) + s[k].ASLen()
 //@ func (*Path).GetAsPathLen
 //@   pure
-//@   spec-only
+//@   modifies nothing
+//@   using sumASLen0 sumASLenStep
+//@   requires path != nil
+//@   requires path.GetAsPath() != nil ==> (forall k int :: 0 <= k && k < len(path.GetAsPath().Value) ==> path.GetAsPath().Value[k] != nil)
+//@   loop 0 invariant length == sumASLen(aspath.Value, __iter + 1) && __iter + 1 <= len(aspath.Value)
+//@   ensures path.GetAsPath() == nil ==> result == 0
+//@   ensures path.GetAsPath() != nil ==> result == sumASLen(path.GetAsPath().Value, len(path.GetAsPath().Value))
 //@ func (*Path).getPathAttr
 //@   pure
 //@   spec-only
